@@ -384,7 +384,7 @@ def kak_stream(ctx, cirq, inputs, checks):
 def cls(name):
     """Input class used in signatures: the corpus name without the local dressing marker (bare and dressed versions of one
     Weyl-chamber point belong to the same class)."""
-    return name.replace('weyl+locals:', 'weyl:')
+    return name.replace('weyl+locals:', 'weyl:').replace('+locals', '')
 
 
 def cmat(u):
@@ -945,7 +945,7 @@ def linalg_stream(ctx, cirq, inputs1, inputs2, checks):
 # =====================================================================================================
 ROUTINES.update({
     'three_qubit_matrix_to_operations': 'docstring: operations for a 3-qubit unitary (an operation list: up to phase) made of CZ, CNOT and single-qubit gates; atol = "limit on the amount of absolute error": residual <= atol; the cited algorithm (Shende et al.) uses at most 20 CZ/CNOT, which is what Cirq\'s own test asserts: every multi-qubit gate must be CZ or CNOT and there are at most 20.',
-    'quantum_shannon_decomposition': 'docstring: 1- and 2-qubit gates and GlobalPhase "preserving global phase": compared EXACTLY; two-qubit gates from {CNOT, CZ}; the docstring warns that accuracy depends on np.linalg.eig and states no bound: atol 1e-8 x 10 = 1e-7; count: the Shende formula (23/48)4^n - (3/2)2^n + 4/3 (3, 20, 100 for n = 2, 3, 4) of the cited algorithm.',
+    'quantum_shannon_decomposition': 'docstring: 1- and 2-qubit gates and GlobalPhase "preserving global phase": compared EXACTLY; two-qubit gates from {CNOT, CZ} (read as the CZPowGate family: the 2-qubit blocks are synthesised with partial CZs); the docstring warns that accuracy depends on np.linalg.eig and states no bound: atol 1e-8 x 10 = 1e-7; count: the Shende formula (23/48)4^n - (3/2)2^n + 4/3 (3, 20, 100 for n = 2, 3, 4) of the cited algorithm.',
     'decompose_multi_controlled_rotation': 'docstring: equivalent to MatrixGate(matrix).on(target).controlled_by(*controls) (a controlled gate: compared EXACTLY), exclusively 1-qubit, CNOT and CCNOT gates; no tolerance stated: 1e-7.',
     'decompose_multi_controlled_x': 'docstring: multi-controlled X, free qubits end in their initial state (compared EXACTLY with C^n X (x) I), exclusively 1-qubit, CNOT and CCNOT gates; 1e-7.',
     'prepare_two_qubit_state_using_cz': 'docstring: prepares the state from |00> with at most one CZ: exactly 1 for entangled states, 0 for product states (checked where the smaller Schmidt coefficient is 0 or > 1e-6); a state: up to phase; no tolerance stated: 1e-7.',
@@ -977,7 +977,8 @@ def run_nq(ctx, cirq, mods, conv, checks, routine, opts, name, u):
         elif routine == 'quantum_shannon_decomposition':
             ops = list(cirq.quantum_shannon_decomposition(q, u))
             add_ops_checks(ctx, conv, checks, routine, opts, name, u, ops, q, 1e-7, False,
-                           (shende_count(n), False, is_cx_or_cz(cirq), f'at most {shende_count(n)} CZ/CNOT for {n} qubits and no other multi-qubit gate'), nt)
+                           (shende_count(n), False, lambda op: len(op.qubits) == 2 and (isinstance(op.gate, cirq.CZPowGate) or is_cx_or_cz(cirq)(op)),
+                            f'at most {shende_count(n)} CZ-family/CNOT gates for {n} qubits and no other multi-qubit gate'), nt)
         else:
             raise KeyError(routine)
     except KeyError:
